@@ -78,6 +78,8 @@ class ArrayGen:
         out.append(["new cap=0 exp=2", "destroy"])
         if focus in ("iter", "growth", "all"):
             out += self.same_array_zips()
+        if focus in ("sort", "all"):
+            out += self.sort_mutate_sort()
         if focus in ("reject", "all"):
             # capacities whose byte size is absurd or wraps (A9): 2^61-1 is refused by the allocator,
             # 2^61 and above are invalid
@@ -89,6 +91,33 @@ class ArrayGen:
                 out.append([f"new cap={cap} exp={ex}"] + [f"add {i}" for i in range(1, cap + 2)] +
                            ["add_at 9 0", "it_new", "it_next", "it_add 8", "remove_last", "add 7", "destroy"])
         out.append(["new cap=2", "add 1", "add 2", "add 3", "destroy_cb"])
+        return out
+
+    def sort_mutate_sort(self):
+        """sort, then one or more mutations of every kind that really break sortedness, then sort again
+        with the same comparator and with the other one (a sorted-ness flag or cached result that a
+        mutator forgets to invalidate shows here); also the derived arrays of a sorted array"""
+        fill = ["add 31", "add 12", "add 23", "add 4", "add 15"]      # natural order and order mod 10 differ
+        muts = [["map"], ["replace_at 99 0"], ["replace_at 0 4"], ["swap_at 0 4"], ["reverse"], ["remove 4"], ["remove_at 0"],
+                ["remove_last"], ["add 0"], ["add 99", "add 1"], ["add_at 98 0"], ["add_at 97 2"], ["filter_mut"],
+                ["trim_capacity", "add 2"], ["remove_all", "add 9", "add 3"],
+                ["it_new", "it_next", "it_replace 96"], ["it_new", "it_next", "it_next", "it_add 95"],
+                ["it_new", "it_next", "it_next", "it_remove", "it_add 94"], ["it_new", "it_add 93"],
+                ["mk_copy_shallow to=1", "zit_new o=0 p=1", "zit_next", "zit_replace 92 91", "sort o=1", "get_at 0 o=1"],
+                ["mk_copy_deep to=1", "zit_new o=0 p=1", "zit_next", "zit_next", "zit_add 90 89", "sort_mod o=1", "get_at 0 o=1"],
+                ["mk_copy_shallow to=1", "zit_new o=1 p=0", "zit_next", "zit_next", "zit_remove", "zit_add 88 87"],
+                ["zit_new o=0 p=0", "zit_next", "zit_replace 86 85"], ["zit_new o=0 p=0", "zit_next", "zit_add 84 83"],
+                ["swap_at 1 3", "map", "replace_at 82 2"], ["reverse", "add 0", "remove_at 1", "it_new", "it_next", "it_replace 81"]]
+        tail = ["get_at 0", "get_last", "index_of 15", "map", "destroy"]
+        out = []
+        for mu in muts:
+            for s1, s2 in (("sort", "sort"), ("sort", "sort_mod"), ("sort_mod", "sort_mod"), ("sort_mod", "sort")):
+                out.append(["new cap=2 exp=2"] + fill + [s1, "get_at 0", "map"] + mu + ["get_at 0", s2] + tail)
+        # derived arrays of a sorted array are sorted on their own
+        for mk in ("mk_sub 1 3 to=1", "mk_copy_shallow to=1", "mk_copy_deep to=1", "mk_filter to=1"):
+            for s1, s2 in (("sort", "sort_mod"), ("sort_mod", "sort"), ("sort", "sort")):
+                out.append(["new cap=4 exp=1.5"] + fill + [s1, mk, "reverse o=1", "add 0 o=1", s2 + " o=1", "get_at 0 o=1",
+                                                            "get_last o=1", "reverse", s2, "get_at 0", "map o=1", "destroy"])
         return out
 
     def same_array_zips(self):
@@ -151,7 +180,7 @@ class ArrayGen:
                 ("contains_value", 1.5), ("map", 1), ("reduce", 1), ("size", 0.3), ("capacity", 0.3)]
         extra = []
         if focus in ("sort", "all"):
-            extra += [("sort", 4), ("sort_mod", 4)]
+            extra += [("sort", 4), ("sort_mod", 4), ("sort_mut_sort", 5)]
         if focus in ("iter", "all"):
             extra += [("iter_prog", 6), ("zip_prog", 3), ("zip_same_prog", 0.35)]
         if focus in ("derived", "all"):
@@ -278,6 +307,44 @@ class ArrayGen:
                     if rng.random() < 0.2: ops.append("it_index")
                     if rng.random() < 0.08 or len(ops) > length + 40:
                         break
+            elif op == "sort_mut_sort":
+                # sort, 1-3 mutations that break sortedness (largest value to the front, smallest to the
+                # end, ...), sort again with the same or the other comparator, observe
+                k = rng.choice(sorted(L)); xs = L[k]; sfx = f" o={k}" if k else ""
+                while len(xs) < 3:
+                    v = pick_value(rng); ops.append(f"add {v}{sfx}"); xs.append(v)
+                s1 = rng.choice(["sort", "sort_mod"]); emit_core(s1, k)
+                for _ in range(rng.randint(1, 3)):
+                    big, small = 900 + rng.randint(0, 99), rng.randint(0, 1)
+                    kind = rng.choice(["map", "replace_front", "replace_back", "swap_ends", "reverse", "remove", "remove_at",
+                                       "remove_last", "add_small", "add_at_big", "filter_mut", "trim_capacity", "it_replace",
+                                       "it_add", "it_remove", "zip_same"])
+                    if kind in ("map", "reverse", "remove", "remove_at", "remove_last", "filter_mut", "trim_capacity"):
+                        emit_core(kind, k)
+                    elif kind == "replace_front" and xs:
+                        ops.append(f"replace_at {big} 0{sfx}"); xs[0] = big
+                    elif kind == "replace_back" and xs:
+                        ops.append(f"replace_at {small} {len(xs) - 1}{sfx}"); xs[-1] = small
+                    elif kind == "swap_ends" and len(xs) > 1:
+                        ops.append(f"swap_at 0 {len(xs) - 1}{sfx}"); xs[0], xs[-1] = xs[-1], xs[0]
+                    elif kind == "add_small":
+                        ops.append(f"add {small}{sfx}"); xs.append(small)
+                    elif kind == "add_at_big":
+                        ops.append(f"add_at {big} 0{sfx}"); xs.insert(0, big)
+                    elif kind in ("it_replace", "it_add", "it_remove") and xs:
+                        invalidate(k)
+                        ops.append("it_new" + sfx); ops.append("it_next")
+                        if kind == "it_replace": ops.append(f"it_replace {big}"); xs[0] = big
+                        elif kind == "it_add": ops.append(f"it_add {big}"); xs.insert(1, big)
+                        else:
+                            ops.append("it_remove"); del xs[0]; ops.append(f"it_add {big}"); xs.insert(0, big)
+                    elif kind == "zip_same" and xs:
+                        invalidate(k)
+                        ops.append(f"zit_new o={k} p={k}"); ops.append("zit_next"); ops.append(f"zit_replace {small} {big}"); xs[0] = big
+                    if rng.random() < 0.3: ops.append(f"get_at 0{sfx}")
+                emit_core(s1 if rng.random() < 0.5 else ("sort_mod" if s1 == "sort" else "sort"), k)
+                ops.append(f"get_at 0{sfx}"); ops.append(f"get_last{sfx}")
+                if rng.random() < 0.3: emit_core("index_of", k)
             elif op == "zip_same_prog":
                 # the same array on both sides of the zip iterator: every call acts twice on one object
                 k = rng.choice(sorted(L)); xs = L[k]
